@@ -10,7 +10,7 @@ Theorem hand_modelled_sources_unchanged_C06 : PinsC06.pins = [
   ("rust/src/python/helpers.rs::get_offset"%string, "05f1a84feeed6974c6c7"%string);
   ("rust/src/python/helpers.rs::get_tz_name"%string, "996374750089f07601b2"%string);
   ("rust/src/helpers.rs::day_number"%string, "773670d9b9b4689c19c3"%string);
-  ("src/pendulum/interval.py::Interval.__init__"%string, "643448d9b6917a3f0edc"%string);
+  ("src/pendulum/interval.py::Interval.__init__"%string, "bf8b98f81fbc3c9ccb28"%string);
   ("src/pendulum/interval.py::Interval.years"%string, "f4c634e6c31bf2b5466e"%string);
   ("src/pendulum/interval.py::Interval.months"%string, "bd1993a433d26970144d"%string);
   ("src/pendulum/interval.py::Interval.weeks"%string, "9cfb8ee1b563c8da664c"%string);
